@@ -188,3 +188,63 @@ pub fn read_bed(src: Source, _variant: u8, items: &mut Vec<String>) -> io::Resul
     }
     Ok(())
 }
+
+// ------------------------------------------------------------- write protocols (careful user)
+
+use std::io::Write;
+
+use crate::genr::text::LinesModel;
+
+pub fn write_fasta<W: Write>(w: W, m: &FastaModel, width: usize) -> io::Result<()> {
+    let width = std::num::NonZero::new(width.max(1)).unwrap();
+    let mut w = fasta::io::writer::Builder::default()
+        .set_line_base_count(width)
+        .build_from_writer(w);
+    for r in &m.records {
+        let def = fasta::record::Definition::new(r.name.as_str(), r.description.clone().map(bstr::BString::from));
+        let rec = fasta::Record::new(def, fasta::record::Sequence::from(r.sequence.clone()));
+        w.write_record(&rec)?;
+    }
+    w.get_mut().flush()
+}
+
+pub fn write_fastq<W: Write>(w: W, m: &FastqModel) -> io::Result<()> {
+    let mut w = fastq::io::Writer::new(w);
+    for r in &m.records {
+        let def = fastq::record::Definition::new(r.name.as_str(), r.description.as_str());
+        let rec = fastq::Record::new(def, r.sequence.clone(), r.quality.clone());
+        w.write_record(&rec)?;
+    }
+    w.get_mut().flush()
+}
+
+pub fn write_gff<W: Write>(w: W, m: &LinesModel) -> io::Result<()> {
+    let mut r = gff::io::Reader::new(&m.text[..]);
+    let lines = r.line_bufs().collect::<io::Result<Vec<_>>>()?;
+    let mut w = gff::io::Writer::new(w);
+    for l in &lines {
+        w.write_line(l)?;
+    }
+    w.get_mut().flush()
+}
+
+pub fn write_gtf<W: Write>(w: W, m: &LinesModel) -> io::Result<()> {
+    let mut r = gtf::io::Reader::new(&m.text[..]);
+    let lines = r.line_bufs().collect::<io::Result<Vec<_>>>()?;
+    let mut w = gtf::io::Writer::new(w);
+    for l in &lines {
+        w.write_line(l)?;
+    }
+    w.get_mut().flush()
+}
+
+pub fn write_bed<W: Write>(w: W, m: &LinesModel) -> io::Result<()> {
+    let mut r = bed::io::Reader::<3, _>::new(&m.text[..]);
+    // the builder wraps the sink in a BufWriter: the protocol ends with a flush
+    let mut w = bed::io::writer::Builder::<3>.build_from_writer(w);
+    let mut rec = bed::Record::<3>::default();
+    while r.read_record(&mut rec)? != 0 {
+        w.write_record(&rec)?;
+    }
+    w.get_mut().flush()
+}
